@@ -227,7 +227,10 @@ impl Story {
                         }
                     }
 
+                    // Everything has been handed to the handler: forget it, so that
+                    // the next continue does not deliver it again.
                     self.reset_errors();
+                    self.get_state_mut().reset_warnings();
                 }
                 // No error handler: throw for errors, silently discard warnings
                 None => {
